@@ -37,7 +37,7 @@ def scenario(draw, max_steps=12, reverse=None, layouts=("sparse", "dense"), extr
              min_gap=2, kills=True, masks=("none", "islands", "coast"), advection=("EF", "RK2", "RK4"),
              numrec=(0, 1, 2, 3), continuous=(False, True), pvars=None, lonlat=(False, True),
              dtypes=("f8",), out_of_grid=True, ref_kinds=("none", "before", "start", "after"),
-             subgrids=(False, False, True), late_release=(0, 0, 0, 1, 2)):
+             subgrids=(False, False, True), late_release=(0, 0, 0, 1, 2), stop_offsets=(0,)):
     jm = draw(st.integers(7, 11))
     im = draw(st.integers(8, 12))
     N = draw(st.integers(2, 4))
@@ -102,7 +102,7 @@ def scenario(draw, max_steps=12, reverse=None, layouts=("sparse", "dense"), extr
                layout=draw(st.sampled_from(layouts)), dtype=draw(st.sampled_from(dtypes)),
                ref=draw(st.sampled_from(ref_kinds)), lonlat=draw(st.sampled_from(lonlat)))
     return dict(grid=dict(jm=jm, im=im, N=N, seed=gseed, mask=mask, h=hkind, sub=sub),
-                time=dict(nsteps=nsteps, reverse=rev, pre=pre),
+                time=dict(nsteps=nsteps, reverse=rev, pre=pre, stop_off=draw(st.sampled_from(stop_offsets))),
                 forcing=dict(gaps=gaps, partition=part, vel=vel, temp=xf, tunits=tunits),
                 release=dict(rows=rows, continuous=cont, freq=freq),
                 ibm=dict(kills=kl, deactivate=deact, lifetime=lifetime),
@@ -121,7 +121,8 @@ def build(d: Path, scn, out_name="out.nc", record_output=True, record_ibm=False,
     sgn = -1 if rev else 1
     nsteps = tm["nsteps"]
     start = scen.T0 + scen.S(3600) + scen.S(shift_steps * DT)
-    stop = start + scen.S(sgn * nsteps * DT)
+    # the stop time may lie between two steps: the run then has floor((stop - start) / dt) steps
+    stop = start + scen.S(sgn * (nsteps * DT + int(tm.get("stop_off", 0))))
     f = scn["forcing"]
     fsteps = np.concatenate([[-tm["pre"]], -tm["pre"] + np.cumsum(f["gaps"])])
     # optional per-frame offsets (seconds, 0 <= off < DT) in simulation direction: frames between model steps
